@@ -1,7 +1,7 @@
 # C12 – Retry middleware: bounded attempts, back-off, first success wins, error kept.
 #
 # Request (see harness/cmd/c12/main.go, lean/Driver/C12.lean):
-#   retry mr= init= max= mul=p/q rf=a/b el= hook= log= outs=<f|c|d|s><k>,… cancel=<j|-> ctxend=<call|pre|deadline|-> sleep=<j>:<ns>|-   (inputs)
+#   retry mr= init= max= mul=p/q rf=a/b el= hook= log= outs=<f|u|c|d|s><k>,… cancel=<j|-> ctxend=<call|pre|deadline|-> sleep=<j>:<ns>|-   (inputs)
 #         pass=<P>:<idx>|-                                                                        (input: the same message object handled P times)
 #         conc=<M>:<idx>:<stagger>|-                                                              (input: M messages through one instance)
 #         n= d= ts= te= tr= tq=                                                                    (recorded from the run)
@@ -47,7 +47,7 @@ PROP = {
     "search_seeds": 3,
     "rule": "Real middleware.Retry with the real cenkalti/backoff and the real clock. logic: MaxRetries -1..8 x first success at call "
             "0..1+MaxRetries or never x hook set/unset, zero intervals, exhaustively; cancel: the context cancelled from inside call j for "
-            "every j (MaxRetries 1,2,3,4,6,8 quick / 1..8 thorough) with the racing wait >= 10 ms; cancel.zero: waits of exactly 0 (InitialInterval 0, or 1 ms with MaxInterval 0) x the context ending during call j for every j <= MaxRetries-2 (MaxRetries 2..8) by cancel() inside the call, by being cancelled before Retry is invoked, or by a deadline that falls during the call - at most ONE call after the context ended is accepted there (closed ctx.Done() racing time.After(0)); both cancellation groups also with a far MaxElapsedTime (10 s, 1 h) so that the derived context has to follow the message's; ctxerr: handler errors that wrap context.Canceled / the call's own DeadlineExceeded while the message context is alive (fail^i then succeed / fail forever, MaxRetries 1..8) - they are retried like any failure; repass: the SAME message object handled 2..3 times in a row through the wrapped handler (redelivery / an outer layer), the caller leaving its context alone, MaxElapsedTime 0 / 10 s / 1 h: every pass is reported as its own case and must behave like a first pass; schedule: 260 (quick) / 2600 (thorough) seeded "
+            "every j (MaxRetries 1,2,3,4,6,8 quick / 1..8 thorough) with the racing wait >= 10 ms; cancel.zero: waits of exactly 0 (InitialInterval 0, or 1 ms with MaxInterval 0) x the context ending during call j for every j <= MaxRetries-2 (MaxRetries 2..8) by cancel() inside the call, by being cancelled before Retry is invoked, or by a deadline that falls during the call - at most ONE call after the context ended is accepted there (closed ctx.Done() racing time.After(0)); both cancellation groups also with a far MaxElapsedTime (10 s, 1 h) so that the derived context has to follow the message's; ctxerr: handler errors that wrap context.Canceled / the call's own DeadlineExceeded while the message context is alive (fail^i then succeed / fail forever, MaxRetries 1..8) - they are retried like any failure; errtype: handler errors of uncomparable dynamic types (a slice-typed error list, a struct with a map field) with a Logger set and >= 2 failed retries, MaxRetries 2..8 - Retry only passes errors on (a panic is a violation); repass: the SAME message object handled 2..3 times in a row through the wrapped handler (redelivery / an outer layer), the caller leaving its context alone, MaxElapsedTime 0 / 10 s / 1 h: every pass is reported as its own case and must behave like a first pass; schedule: 260 (quick) / 2600 (thorough) seeded "
             "configurations, InitialInterval 0..3 ms, MaxInterval up to 5 ms, Multiplier {1, 3/2, 2, 3}, RandomizationFactor {0, 1/2, 1}, "
             "fail^i then succeed or fail forever, 0..2 output messages per call (also from failing calls); elapsed: MaxElapsedTime 30 ms with "
             "a call sleeping 150 ms at call 0..4, MaxElapsedTime 2..12 ms against waits of 1..6 ms, and 10 s (no effect); elapsed.wait: the wait before call k exceeds what is left of MaxElapsedTime by >= 40 ms (300 ms vs 60 ms, 20/40/80 ms vs 100 ms, ...): the call count is predicted by counting; concurrent: 2..4 messages staggered through ONE middleware instance and ONE wrapped handler, each message reported as its own case and held to its own schedule; odd: "
